@@ -257,3 +257,23 @@ def graph_reentrancies(self: 'Graph') -> 'dict':
                 and result[v] >= 1 for v in result), label='counts')
     ensures(all((v in result) == (len([t for t in self.edges() if t[2] == v]) + (1 if v == self.top else 0) >= 2)
                 for v in self.variables()), label='listed-iff-reentrant')
+
+
+@contract('penman.graph:Graph.__eq__')
+def graph_eq(self: 'Graph', other: 'Graph') -> 'bool':
+    requires(wf_triples(self.triples) and wf_triples(other.triples))
+    # same top, as many triples, and the same triples as sets (order and markers do not count)
+    ensures(result == (top_of(self.triples, self._top) == top_of(other.triples, other._top)
+                       and len(self.triples) == len(other.triples)
+                       and subset(set_of_seq(self.triples), set_of_seq(other.triples))
+                       and subset(set_of_seq(other.triples), set_of_seq(self.triples))), label='equality')
+
+
+@spec
+def top_of(ts: 'list', top: 'val') -> 'val':
+    """the explicit top, else the first triple's source, else None"""
+    if top is not None:
+        return top
+    if len(ts) > 0:
+        return ts[0][0]
+    return None
